@@ -7,6 +7,11 @@ pub mod c03;
 pub mod c04;
 pub mod c06;
 pub mod c07;
+pub mod c08;
+pub mod c09;
+pub mod c10;
+pub mod c11;
+pub mod lzgen;
 pub mod calibrate;
 
 pub fn run(prop: &str, cx: &mut Ctx) -> bool {
@@ -28,12 +33,37 @@ pub fn run(prop: &str, cx: &mut Ctx) -> bool {
         "C04" => c04::run(cx),
         "C06" => c06::run(cx),
         "C07" => c07::run(cx),
+        "C08" => c08::run(cx),
+        "C09" => c09::run(cx),
+        "C10" => c10::run(cx),
+        "C11" => c11::run(cx),
         _ => return false,
     }
     true
 }
 
 /// further calibrations, added as the reference oracles grow
-pub fn calibrate_more(_repo: &Path, _done: &mut Vec<String>) -> Result<(), String> {
+pub fn calibrate_more(repo: &Path, done: &mut Vec<String>) -> Result<(), String> {
+    use crate::refs::lz;
+    let rd = |n: &str| std::fs::read(repo.join("resources/test").join(n)).ok();
+    if let (Some(lzf), Some(plain)) = (rd("LZ13Test.bin.lz"), rd("LZ13Test.bin")) {
+        if lzf.len() < 8 || lzf[0] != 0x13 {
+            return Err("golden LZ13Test.bin.lz does not start with a 0x13 wrapper".into());
+        }
+        let x = lz::expand(&lzf[4..], plain.len() + 1);
+        if x.class != lz::Class::Conforming || x.out != plain {
+            return Err(format!("reference LZ11 expander does not expand golden LZ13Test.bin.lz to LZ13Test.bin ({:?})", x.class));
+        }
+        // and the reference encoder re-encodes the parsed token list to the same bytes
+        let re = lz::encode(lz::Kind::Lz11, &x.tokens, plain.len());
+        if re != lzf[4..] {
+            return Err("reference LZ11 encoder does not reproduce the golden stream from its own token list".into());
+        }
+        done.push("LZ11 expander/encoder agree with golden LZ13Test.bin.lz".into());
+    }
+    calibrate_containers(repo, done)
+}
+
+pub fn calibrate_containers(_repo: &Path, _done: &mut Vec<String>) -> Result<(), String> {
     Ok(())
 }
